@@ -225,7 +225,25 @@ def router_worker(analysis: Analysis, spec) -> dict:
         kind, s, v = out
         passed = kind == "val" and isinstance(v, V) and v.key() == msg.key() and not any(e.kind == "append" for e in s.events)
         stream_rows.append({"ok": passed, "witness": describe_path(out)})
-    return {"ctx": ctx.name, "rows": rows, "held": held, "stream_rows": stream_rows}
+    # a presentation-type message (the echo the presentation handler returns) is dropped: never sent, never held
+    it3 = analysis.new_interp(ctx)
+    st3, gw3 = analysis.gateway_state(it3)
+    st3.mem[(msg.key(), "a", "type")] = EnumMemV("MessageType", ctx.version, ("presentation",))
+    pres_rows = []
+    for out in analysis.run_root(it3, "__init__:Gateway._route_message", [msg], gw3, st3):
+        kind, s, v = out
+        dropped = kind == "val" and isinstance(v, Const) and v.value is None and not any(e.kind == "append" for e in s.events)
+        pres_rows.append({"ok": dropped, "witness": describe_path(out)})
+    return {"ctx": ctx.name, "rows": rows, "held": held, "stream_rows": stream_rows, "pres_rows": pres_rows}
+
+
+def presentation_dropped(analysis: Analysis, res, rule: str) -> None:
+    """The presentation handler returns the inbound message and relies on the router to discard it: a
+    presentation-type message is neither sent nor parked in a sleeping node's hold queue (shared with C05)."""
+    for summ in common.pmap(analysis, router_worker, [(v, "serial", "sync") for v in (analysis.versions[0], analysis.versions[-1])]):
+        pr = summ["pres_rows"]
+        ok = bool(pr) and all(r["ok"] for r in pr)
+        res.add(rule, "__init__:Gateway._route_message / a presentation-type message is dropped (neither sent nor held)", ok, "mysensors/__init__.py", f"{len(pr)} path(s) return None without touching a queue" if ok else "a presentation echo can be returned for sending or parked in the hold queue of a sleeping node (and is then sent to the node at its next wake-up)", next((r["witness"] for r in pr if not r["ok"]), None), context=summ["ctx"])
 
 
 def hold_queue_plain(analysis: Analysis, res: RuleResult, rule: str) -> None:
@@ -392,6 +410,11 @@ def run(analysis: Analysis, tier: str) -> RuleResult:
             seen_sites.setdefault((r["site"], r["kind"]), set()).add(str(r["class"]))
             res.add("C07-R1", f"{r['site']} / {r['kind']} classified", r["class"] is not None, f"{r['site']}:{r['line']}", r["class"] or r["detail"], context=s["ctx"])
     # R2 router
+    presentation_dropped(analysis, res, "C07-R2")
+    # nothing is sent after stop(): the pump re-tests the stop event before every job and the event is one-shot
+    from . import c14
+
+    c14.pump_stops(analysis, res, "C07-R1")
     for s in common.pmap(analysis, router_worker, [(v, "serial", "sync") for v in analysis.versions]):
         if not s["held"]:
             res.add("C07-R2", "__init__:Gateway._route_message / traffic for a sleeping node is held", False, "mysensors/__init__.py", "no path of the router diverts a message into the node's queue", context=s["ctx"])
